@@ -49,7 +49,14 @@ def load():
 def plan(f, fn, expected):
     """-> mapping actual -> pinned name, or None when the function is not a pure rename of the pinned one"""
     seq = binding_seq(f, fn)
-    if seq == expected or len(seq) != len(expected): return None
+    if seq == expected: return None
+    if len(seq) != len(expected):
+        # locals were added or removed: only the parameters (which the contract names) can be matched by position
+        t_ = f.toks
+        k = len([i for i in range(fn.i_po + 1, fn.i_pc) if t_[i].k == 'id' and t_[i + 1].s == ':' and t_[i - 1].s in ('(', ',', 'mut') and t_[i].s != 'self'])
+        if k == 0 or k > len(expected) or k > len(seq): return None
+        seq, expected = seq[:k], expected[:k]
+        if seq == expected: return None
     if set(seq) == set(expected): return None            # the same names bound in another order: not a rename, the text is verified as it stands
     m = {a: e for a, e in zip(seq, expected) if a != e}
     if len(set(m.values())) != len(m): return None
